@@ -1,5 +1,8 @@
 import Litestream.Model.Follow
 import Litestream.Lemmas.PlanSort
+import Litestream.Lemmas.Follow
+import Litestream.Lemmas.FollowPlan
+import Litestream.Gen.Follow
 /-!
 C16 — follow-mode restore converges and resumes correctly after being killed.
 Property theorems only (helper lemmas: Lemmas/Follow*.lean).
@@ -7,10 +10,211 @@ Property theorems only (helper lemmas: Lemmas/Follow*.lean).
 namespace Litestream.C16
 open Litestream Litestream.Follow
 
-/-! ## Resume validation (finding F5) -/
+/-! ## Soundness of a poll -/
 
-/-- Highest TXID named by any listed file. -/
-def maxInfoTx (fs : List FileInfo) : Nat := fs.foldl (fun m f => if f.max > m then f.max else m) 0
+/-- **L-catchup as explicit hypothesis** (DESIGN §2): every file of the replica, applied to the
+    true state at any TXID `c` it connects to (`min ≤ c+1`, `c < max`), yields the true state at
+    its `max`.  This is the semantic contract of `ltx.Compactor` + growth-complete level-0 files
+    (property C06, owned by another package); it is assumed here, not proved. -/
+def CatchUp (T : List Body) (r : Replica) : Prop :=
+  ∀ rf ∈ r, ∀ c, rf.info.min ≤ c + 1 → c < rf.info.max →
+    (truth T c).applyBody rf.body = truth T rf.info.max
+
+theorem content_of_mem {r : Replica} {f : FileInfo} (hf : f ∈ infos r) :
+    ∃ rf ∈ r, content r f = some rf.body ∧ rf.info.min = f.min ∧ rf.info.max = f.max := by
+  unfold infos at hf
+  obtain ⟨rf0, hrf0, rfl⟩ := List.mem_map.mp hf
+  unfold content
+  cases hfind : r.find? (fun rf => rf.info.level == rf0.info.level && rf.info.min == rf0.info.min && rf.info.max == rf0.info.max) with
+  | none =>
+    have := List.find?_eq_none.mp hfind rf0 hrf0
+    simp at this
+  | some rf =>
+    have hp := List.find?_some hfind
+    have hm := List.mem_of_find?_eq_some hfind
+    simp at hp
+    exact ⟨rf, hm, rfl, hp.1.2, hp.2⟩
+
+/-- Applying a chain of listed files to the true state at `c` gives the true state at the chain's end. -/
+theorem applyAll_chain {T : List Body} {r : Replica} (h : CatchUp T r) :
+    ∀ (plan : List FileInfo) (c : Nat), chainFrom c plan = true → (∀ x ∈ plan, x ∈ infos r) →
+      (truth T c).applyAll (bodies r plan) = truth T (chainEnd c plan) := by
+  intro plan
+  induction plan with
+  | nil => intro c _ _; rfl
+  | cons f rest ih =>
+    intro c hc hmem
+    simp [chainFrom] at hc
+    obtain ⟨rf, hrf, hcont, hmin, hmax⟩ := content_of_mem (hmem f (by simp))
+    have hstep : (truth T c).applyBody rf.body = truth T rf.info.max :=
+      h rf hrf c (by omega) (by omega)
+    have hb : bodies r (f :: rest) = rf.body :: bodies r rest := by
+      unfold bodies; simp [hcont]
+    rw [hb]
+    show ((truth T c).applyBody rf.body).applyAll (bodies r rest) = truth T (chainEnd c (f :: rest))
+    rw [hstep, hmax]
+    exact ih f.max hc.2 (fun x hx => hmem x (List.mem_cons_of_mem _ hx))
+
+/-- `follow_step_sound`: a poll never regresses the sidecar and keeps the follower equal to the
+    true state at its sidecar TXID. -/
+theorem follow_step_sound {T : List Body} {r : Replica} (h : CatchUp T r) (fol : Fol)
+    (hf : fol.db = truth T fol.txid) :
+    (poll r fol).txid ≥ fol.txid ∧ (poll r fol).db = truth T (poll r fol).txid := by
+  have hp := pollPlan_chain (infos r) fol.txid
+  refine ⟨chainEnd_ge _ _ hp.1, ?_⟩
+  show fol.db.applyAll (bodies r (pollPlan (infos r) fol.txid)) = truth T (chainEnd fol.txid (pollPlan (infos r) fol.txid))
+  rw [hf]
+  exact applyAll_chain h _ _ hp.1 hp.2
+
+/-- Non-vacuity: a two-transaction truth, level-0 files and their level-1 compaction satisfy `CatchUp`
+    pointwise on the pages that exist (checked by evaluation on the witness). -/
+def exT : List Body := [⟨2, [(1, 11), (2, 12)]⟩, ⟨3, [(1, 21), (3, 23)]⟩]
+def exR : Replica := [⟨⟨0, 1, 1, 0⟩, exT[0]!⟩, ⟨⟨0, 2, 2, 0⟩, exT[1]!⟩, ⟨⟨1, 1, 2, 0⟩, ⟨3, [(1, 21), (2, 12), (3, 23)]⟩⟩]
+example : (poll exR ⟨truth exT 0, 0⟩).txid = 2 ∧
+    ((poll exR ⟨truth exT 0, 0⟩).db.size = (truth exT 2).size) ∧
+    ([1, 2, 3, 4].map (poll exR ⟨truth exT 0, 0⟩).db.get = [1, 2, 3, 4].map (truth exT 2).get) := by decide
+
+/-! ## Convergence -/
+
+theorem chainEnd_le (q : List FileInfo) (N : Nat) (hq : ∀ x ∈ q, x.max ≤ N) : ∀ c, c ≤ N → chainEnd c q ≤ N := by
+  induction q with
+  | nil => intro c h; exact h
+  | cons f q ih =>
+    intro c _
+    simp [chainEnd]
+    exact ih (fun x hx => hq x (List.mem_cons_of_mem _ hx)) f.max (hq f (by simp))
+
+theorem pollTxid_le_max (fs : List FileInfo) (c : Nat) (hc : c ≤ maxInfoTx fs) : pollTxid fs c ≤ maxInfoTx fs := by
+  unfold pollTxid
+  exact chainEnd_le _ _ (fun x hx => mem_le_maxInfoTx ((pollPlan_chain fs c).2 x hx)) c hc
+
+/-- `follow_converges` (partial): against a replica that no longer changes, if every poll below the
+    newest TXID `N` makes progress, some number of polls reaches exactly `⟨truth N, N⟩`.
+    The progress hypothesis is what "bridgeable" provides (a level-0 file at `c+1`, or a level 1–8
+    file with `min ≤ c+1 < max+1`, is found because listings are sorted); that implication is NOT
+    proved here — the engine checks it on the real code against an independent chain oracle. -/
+theorem follow_converges_partial {T : List Body} {r : Replica} (h : CatchUp T r)
+    (hprog : ∀ c, c < maxInfoTx (infos r) → c < pollTxid (infos r) c) :
+    ∀ (k : Nat) (fol : Fol), fol.db = truth T fol.txid → fol.txid ≤ maxInfoTx (infos r) →
+      maxInfoTx (infos r) - fol.txid ≤ k →
+      ∃ n, (pollN r n fol).txid = maxInfoTx (infos r) ∧ (pollN r n fol).db = truth T (maxInfoTx (infos r)) := by
+  intro k
+  induction k with
+  | zero =>
+    intro fol hf hle hk
+    have : fol.txid = maxInfoTx (infos r) := by omega
+    exact ⟨0, this, by simp [pollN]; rw [hf, this]⟩
+  | succ k ih =>
+    intro fol hf hle hk
+    by_cases heq : fol.txid = maxInfoTx (infos r)
+    · exact ⟨0, heq, by simp [pollN]; rw [hf, heq]⟩
+    · have hlt : fol.txid < maxInfoTx (infos r) := by omega
+      have hs := follow_step_sound h fol hf
+      have hp : fol.txid < (poll r fol).txid := hprog fol.txid hlt
+      have hb : (poll r fol).txid ≤ maxInfoTx (infos r) := pollTxid_le_max _ _ hle
+      obtain ⟨n, hn⟩ := ih (poll r fol) hs.2 hb (by omega)
+      exact ⟨n + 1, hn⟩
+
+/-! ## Kill points -/
+
+theorem run_append (fol : Fol) (a b : List Step) : fol.run (a ++ b) = (fol.run a).run b := by
+  simp [Fol.run, List.foldl_append]
+
+theorem run_writes (ps : List (Nat × Tok)) : ∀ fol : Fol,
+    fol.run (ps.map (fun e => Step.write e.1 e.2)) = ⟨fol.db.writePages ps, fol.txid⟩ := by
+  induction ps with
+  | nil => intro fol; rfl
+  | cons e ps ih =>
+    intro fol
+    simp only [List.map_cons, Fol.run, List.foldl_cons]
+    have := ih (fol.step (Step.write e.1 e.2))
+    simp only [Fol.run] at this
+    rw [this]; rfl
+
+theorem run_bodySteps (fol : Fol) (b : Body) : fol.run (bodySteps b) = ⟨fol.db.applyBody b, fol.txid⟩ := by
+  unfold bodySteps
+  rw [run_append, run_writes]
+  unfold Db.applyBody
+  by_cases hc : b.commit > 0
+  · simp [hc, Fol.run, Fol.step]
+  · simp [hc, Fol.run]
+
+theorem run_bodies (bs : List Body) : ∀ fol : Fol,
+    fol.run (bs.flatMap bodySteps) = ⟨fol.db.applyAll bs, fol.txid⟩ := by
+  induction bs with
+  | nil => intro fol; rfl
+  | cons b bs ih =>
+    intro fol
+    simp only [List.flatMap_cons]
+    rw [run_append, run_bodySteps, ih]
+    rfl
+
+/-- Executing all effects of a poll in order is the poll. -/
+theorem run_pollSteps (r : Replica) (fol : Fol) : fol.run (pollSteps r fol) = poll r fol := by
+  unfold pollSteps poll
+  simp only
+  rw [run_append, run_bodies]
+  have hge := chainEnd_ge _ _ (pollPlan_chain (infos r) fol.txid).1
+  by_cases ht : chainEnd fol.txid (pollPlan (infos r) fol.txid) > fol.txid
+  · simp [ht, Fol.run, Fol.step]
+  · have : chainEnd fol.txid (pollPlan (infos r) fol.txid) = fol.txid := by omega
+    simp [Fol.run, this]
+
+theorem run_no_sidecar (ss : List Step) (hs : ∀ s ∈ ss, ∀ t, s ≠ Step.sidecar t) : ∀ fol : Fol,
+    (fol.run ss).txid = fol.txid := by
+  induction ss with
+  | nil => intro fol; rfl
+  | cons s ss ih =>
+    intro fol
+    simp only [Fol.run, List.foldl_cons]
+    have h1 := ih (fun x hx => hs x (List.mem_cons_of_mem _ hx)) (fol.step s)
+    simp only [Fol.run] at h1
+    rw [h1]
+    cases s with
+    | write p t => rfl
+    | trunc n => rfl
+    | sidecar t => exact absurd rfl (hs _ (by simp) t)
+
+theorem bodySteps_no_sidecar (bs : List Body) : ∀ s ∈ bs.flatMap bodySteps, ∀ t, s ≠ Step.sidecar t := by
+  intro s hs t
+  obtain ⟨b, _, hb⟩ := List.mem_flatMap.mp hs
+  unfold bodySteps at hb
+  rcases List.mem_append.mp hb with hb | hb
+  · obtain ⟨e, _, rfl⟩ := List.mem_map.mp hb; intro h; cases h
+  · by_cases hc : b.commit > 0
+    · simp [hc] at hb; rw [hb]; intro h; cases h
+    · simp [hc] at hb
+
+/-- `follow_kill_resume` (partial): a kill at ANY point before the last effect of a poll leaves
+    the sidecar at the old TXID — so the restarted follower computes the same plan from the same
+    listing and writes every page of every (half-)applied file again, followed by the same
+    truncates — and a poll that runs to completion equals the atomic poll (`run_pollSteps`).
+    Missing for the full statement (`poll r (killAt r fol k) = poll r fol`): the page-level
+    congruence lemma (re-applying a chain of files is insensitive to pages that the chain
+    rewrites or truncates); the engine covers it with SIGKILL at reader-event granularity. -/
+theorem follow_kill_resume_partial (r : Replica) (fol : Fol) (k : Nat)
+    (hk : k < (pollSteps r fol).length) :
+    (killAt r fol k).txid = fol.txid ∧
+      pollPlan (infos r) (killAt r fol k).txid = pollPlan (infos r) fol.txid := by
+  have h1 : (killAt r fol k).txid = fol.txid := by
+    unfold killAt
+    apply run_no_sidecar
+    intro s hs t
+    unfold pollSteps at hs hk
+    simp only at hs hk
+    by_cases ht : chainEnd fol.txid (pollPlan (infos r) fol.txid) > fol.txid
+    · simp only [ht, if_true] at hs hk
+      have hlen : k ≤ ((bodies r (pollPlan (infos r) fol.txid)).flatMap bodySteps).length := by
+        rw [List.length_append] at hk
+        simp only [List.length_singleton] at hk
+        omega
+      rw [List.take_append_of_le_length hlen] at hs
+      exact bodySteps_no_sidecar _ s (List.mem_of_mem_take hs) t
+    · simp only [ht, if_false, List.append_nil] at hs
+      exact bodySteps_no_sidecar _ s (List.mem_of_mem_take hs) t
+  exact ⟨h1, by rw [h1]⟩
+
+/-! ## Resume validation (finding F5) -/
 
 /-- A chain of files of levels 0..8 leads from `c` to the newest TXID (what `applyNewLTXFiles`
     needs in order to catch up). Executable: fuel = number of files. -/
@@ -24,32 +228,36 @@ def Bridgeable (fs : List FileInfo) (c : Nat) : Prop := bridgeFrom fs fs.length 
 
 instance (fs c) : Decidable (Bridgeable fs c) := by unfold Bridgeable; infer_instance
 
-/-- Full-strength statement: a sidecar TXID that is not beyond the replica and from which the
-    newest TXID is bridgeable is accepted by `Restore`'s crash-recovery validation. -/
-def ResumeAccepts : Prop :=
+/-- Full-strength statement (for the validation variant `b`): a sidecar TXID that is not beyond
+    the replica, not pruned (every snapshot starts at TXID 1, `WF`), and from which the newest TXID
+    is bridgeable, is accepted by `Restore`'s crash-recovery validation. -/
+def ResumeAccepts (b : ResumeBound) : Prop :=
   ∀ (fs : List FileInfo) (txid : Nat), 1 ≤ txid → txid ≤ maxInfoTx fs → Bridgeable fs txid →
-    resumeCheck fs txid = .ok ()
+    (∀ f ∈ fs, f.level ≤ snapshotLevel ∧ (f.level = snapshotLevel → f.min = 1)) →
+    resumeCheck b fs txid = .ok ()
 
 /-- Witness of F5: snapshot at TXID 1, level-0 files 1..4, follower applied up to TXID 4. -/
 def f5Listing : List FileInfo :=
   [⟨9, 1, 1, 0⟩, ⟨0, 1, 1, 0⟩, ⟨0, 2, 2, 1⟩, ⟨0, 3, 3, 2⟩, ⟨0, 4, 4, 3⟩]
 
 theorem f5_witness_meets_hypotheses :
-    1 ≤ 4 ∧ 4 ≤ maxInfoTx f5Listing ∧ Bridgeable f5Listing 4 := by decide
+    1 ≤ 4 ∧ 4 ≤ maxInfoTx f5Listing ∧ Bridgeable f5Listing 4 ∧
+      (∀ f ∈ f5Listing, f.level ≤ snapshotLevel ∧ (f.level = snapshotLevel → f.min = 1)) := by decide
 
-theorem f5_witness_rejected : resumeCheck f5Listing 4 = .error .aheadOfSnapshot := by decide
+theorem f5_witness_rejected : resumeCheck .latestSnapshot f5Listing 4 = .error .aheadOfSnapshot := by decide
 
-/-- `follow_resume_accepts` is FALSE of the code as it stands (F5, replica.go:655). -/
-theorem follow_resume_accepts_false : ¬ ResumeAccepts := by
+/-- `follow_resume_accepts` is FALSE of the code as it stands at the pinned commit
+    (F5, replica.go:655: the bound is the newest snapshot). -/
+theorem follow_resume_accepts_false : ¬ ResumeAccepts .latestSnapshot := by
   intro h
-  have := h f5Listing 4 (by decide) (by decide) (by decide)
+  have := h f5Listing 4 (by decide) (by decide) (by decide) (by decide)
   exact absurd this (by decide)
 
-/-- What the code does guarantee: the complement of the finding's signature
+/-- What the pinned code does guarantee: the complement of the finding's signature
     (`sidecar > newest snapshot max`) as explicit hypothesis. -/
 theorem follow_resume_accepts_partial (fs : List FileInfo) (txid : Nat) (h1 : 1 ≤ txid)
     (hs : ∀ s, (listLevel fs snapshotLevel).getLast? = some s → s.min ≤ txid ∧ txid ≤ s.max) :
-    resumeCheck fs txid = .ok () := by
+    resumeCheck .latestSnapshot fs txid = .ok () := by
   unfold resumeCheck
   have h0 : ¬ txid = 0 := by omega
   simp only [h0, if_false]
@@ -62,24 +270,68 @@ theorem follow_resume_accepts_partial (fs : List FileInfo) (txid : Nat) (h1 : 1 
     simp [a, b]
 
 /-- Non-vacuity of the partial theorem: right after the initial restore (sidecar = snapshot max). -/
-example : resumeCheck [⟨9, 1, 3, 0⟩, ⟨0, 4, 4, 1⟩] 3 = .ok () := by decide
+example : resumeCheck .latestSnapshot [⟨9, 1, 3, 0⟩, ⟨0, 4, 4, 1⟩] 3 = .ok () := by decide
 
-/-- The rejections are exactly the three coded ones; `aheadOfSnapshot` happens iff the sidecar is
-    beyond the newest snapshot (this pins the signature of the known finding). -/
-theorem resume_ahead_iff (fs : List FileInfo) (txid : Nat) :
-    resumeCheck fs txid = .error .aheadOfSnapshot ↔
-      txid ≠ 0 ∧ ∃ s, (listLevel fs snapshotLevel).getLast? = some s ∧ s.min ≤ txid ∧ s.max < txid := by
+/-- With the repaired bound (`Gen.resumeBound = .replicaMax`, proposed-fixes/F5.diff) the statement
+    holds at full strength. -/
+theorem follow_resume_accepts_fixed : ResumeAccepts .replicaMax := by
+  intro fs txid h1 hmax _ hwf
   unfold resumeCheck
-  by_cases h0 : txid = 0
-  · simp [h0]
-  · simp only [h0, if_false]
-    cases hl : (listLevel fs snapshotLevel).getLast? with
-    | none => simp
-    | some s =>
-      by_cases a : s.min > txid
-      · simp [a]; try omega
-      · by_cases b : txid > s.max
-        · simp [a, b]; try omega
-        · simp [a, b]; try omega
+  have h0 : ¬ txid = 0 := by omega
+  simp only [h0, if_false]
+  cases hl : (listLevel fs snapshotLevel).getLast? with
+  | none => rfl
+  | some s =>
+    have hsmem : s ∈ listLevel fs snapshotLevel := List.mem_of_getLast? hl
+    have ⟨hsfs, hslvl⟩ := mem_listLevel.mp hsmem
+    have hmin : s.min = 1 := (hwf s hsfs).2 hslvl
+    have a : ¬ s.min > txid := by omega
+    simp only [a, if_false]
+    have hb : maxInfoTx fs ≤ Nat.max s.max (maxInfoTx (fs.filter (fun f => decide (f.level < snapshotLevel)))) := by
+      apply maxInfoTx_le
+      intro f hf
+      by_cases hlv : f.level < snapshotLevel
+      · have hmem : f ∈ fs.filter (fun f => decide (f.level < snapshotLevel)) := by simp [hf, hlv]
+        exact Nat.le_trans (mem_le_maxInfoTx hmem) (Nat.le_max_right _ _)
+      · have hle := (hwf f hf).1
+        have heq : f.level = snapshotLevel := by omega
+        have : f.max ≤ s.max := latestSnapshot_max hl hf heq (by rw [(hwf f hf).2 heq, hmin])
+        exact Nat.le_trans this (Nat.le_max_left _ _)
+    have b : ¬ txid > Nat.max s.max (maxInfoTx (fs.filter (fun f => decide (f.level < snapshotLevel)))) := by omega
+    simp [b]
+
+/-- Non-vacuity: the F5 witness is accepted by the repaired validation. -/
+example : resumeCheck .replicaMax f5Listing 4 = .ok () := by decide
+
+/-- The statement about the working tree, whichever validation it contains: proved for both
+    variants, instantiated at the regenerated `Gen.resumeBound`.  With the pinned commit this is
+    the `…_partial` statement (F5 excluded by hypothesis); with the repair it is the full one. -/
+def ResumeAcceptsCurrent (b : ResumeBound) : Prop :=
+  match b with
+  | .replicaMax => ResumeAccepts .replicaMax
+  | .latestSnapshot => ∀ (fs : List FileInfo) (txid : Nat), 1 ≤ txid →
+      (∀ s, (listLevel fs snapshotLevel).getLast? = some s → s.min ≤ txid ∧ txid ≤ s.max) →
+      resumeCheck .latestSnapshot fs txid = .ok ()
+
+theorem follow_resume_accepts_current : ResumeAcceptsCurrent Gen.resumeBound := by
+  cases h : Gen.resumeBound with
+  | replicaMax => exact follow_resume_accepts_fixed
+  | latestSnapshot => exact follow_resume_accepts_partial
+
+/-- Ties of the model's constants to the regenerated facts (translator fact `Follow`). -/
+theorem gen_gapLevels_eq : gapLevels = List.range' Gen.gapLevelLo (Gen.gapLevelHi - Gen.gapLevelLo) := by
+  first | decide | rfl
+
+theorem gen_snapshot_excluded : Gen.gapLevelHi = snapshotLevel := by first | decide | rfl
+
+/-- `follow` writes the sidecar after `applyNewLTXFiles` (model: `pollSteps` ends with the sidecar). -/
+theorem gen_sidecar_after_apply : Gen.followCalls = ["applyNewLTXFiles", "WriteTXIDFile"] := by
+  first | decide | rfl
+
+/-- `applyLTXFile`: pages are written before the truncate, with a sync in between and at the end
+    (model: `bodySteps` = writes then `trunc`). -/
+theorem gen_apply_order :
+    Gen.applyCalls = ["OpenLTXFile", "LockFileExclusive", "DecodePage", "WriteAt", "Sync", "Truncate", "Sync"] := by
+  first | decide | rfl
 
 end Litestream.C16
